@@ -1,99 +1,15 @@
 ----------------------------- MODULE Trace_Conc -----------------------------
 (***************************************************************************)
-(* C11: evaluators used from many goroutines.                              *)
-(*                                                                         *)
-(* Input (conc.ndjson): the synchronisation-relevant events of ONE real    *)
-(* execution, per goroutine, in program order, recorded through the verif  *)
-(* hooks:                                                                  *)
-(*   [g, e |-> "lock",   x |-> evaluator]   the evaluator's mutex acquired *)
-(*   [g, e |-> "unlock", x |-> evaluator]   ... about to be released       *)
-(*   [g, e |-> "rd" / "wr", x |-> location] the machine reads / writes a   *)
-(*        location of an evaluator: "<evaluator>.n" for the persistent     *)
-(*        counter of the script, "<evaluator>.vm" for the machine's own    *)
-(*        state (stack, field cache), touched by every instruction         *)
-(*   [g, e |-> "clock" / "cunlock"]         the regexp-cache lock          *)
-(*   [g, e |-> "crd" / "cwr", x |-> "cache"] a read / write of the shared  *)
-(*        regexp cache                                                     *)
-(* The specification keeps each goroutine's program order and the lock     *)
-(* semantics and lets TLC explore ALL interleavings consistent with them - *)
-(* not only the one that happened.  It checks                              *)
-(*   NoDataRace     no two goroutines are both about to access the same    *)
-(*                  location, one of them writing, with no common lock     *)
-(*   NoLostUpdate   the counter of every evaluator ends at the number of   *)
-(*                  increments (each run reads it and writes back + 1)     *)
-(*   MutualExclusion a mutex has at most one holder (by construction of    *)
-(*                  the lock actions; kept as a guard)                     *)
+(* C11, code -> spec: EFConc over the events of ONE real execution         *)
+(* (conc.ndjson), recorded per goroutine through the verif hooks - the     *)
+(* evaluator lock hook, the regexp-cache hook and the step hook.  TLC      *)
+(* explores ALL interleavings consistent with program order and the locks, *)
+(* not only the one that happened, and checks NoDataRace, NoLostUpdate,    *)
+(* MutualExclusion, Balanced, NoDeadlock and that every goroutine follows  *)
+(* the lock discipline of the design (LockDiscipline).                     *)
 (***************************************************************************)
-EXTENDS Integers, Sequences, FiniteSets, Json, TLC
+EXTENDS EFConc, Json, TLC
 
-Events == ndJsonDeserialize("conc.ndjson")
-Gs == {Events[i].g : i \in 1..Len(Events)}
-
-\* the events of goroutine g, in order
-RECURSIVE Pick(_, _)
-Pick(g, i) == IF i > Len(Events) THEN <<>>
-              ELSE IF Events[i].g = g THEN <<Events[i]>> \o Pick(g, i + 1) ELSE Pick(g, i + 1)
-Prog == [g \in Gs |-> Pick(g, 1)]
-
-Locs == {Events[i].x : i \in {j \in 1..Len(Events) : Events[j].e \in {"rd", "wr", "crd", "cwr"}}}
-Counters == {l \in Locs : \E i \in 1..Len(Events) : Events[i].x = l /\ Events[i].e = "wr" /\ Events[i].c}
-
-VARIABLES pc,      \* pc[g]: index of the next event of g
-          held,    \* held[g]: set of locks g holds
-          mem,     \* mem[l]: value of counter location l
-          reg,     \* reg[g]: the value g last read from a counter
-          writes   \* writes[l]: increments performed on l
-vars == <<pc, held, mem, reg, writes>>
-
-Init == /\ pc = [g \in Gs |-> 1]
-        /\ held = [g \in Gs |-> {}]
-        /\ mem = [l \in Counters |-> 0]
-        /\ reg = [g \in Gs |-> 0]
-        /\ writes = [l \in Counters |-> 0]
-
-Done(g) == pc[g] > Len(Prog[g])
-Nxt(g) == Prog[g][pc[g]]
-LockName(ev) == IF ev.e \in {"lock", "unlock"} THEN ev.x ELSE "cache-lock"
-IsAcquire(ev) == ev.e \in {"lock", "clock"}
-IsRelease(ev) == ev.e \in {"unlock", "cunlock"}
-IsAccess(ev) == ev.e \in {"rd", "wr", "crd", "cwr"}
-IsWrite(ev) == ev.e \in {"wr", "cwr"}
-
-Free(l) == \A h \in Gs : l \notin held[h]
-
-Step(g) ==
-  /\ ~Done(g)
-  /\ LET ev == Nxt(g) IN
-     /\ (IsAcquire(ev) => Free(LockName(ev)))
-     /\ pc' = [pc EXCEPT ![g] = @ + 1]
-     /\ held' = [held EXCEPT ![g] = IF IsAcquire(ev) THEN @ \cup {LockName(ev)}
-                                    ELSE IF IsRelease(ev) THEN @ \ {LockName(ev)} ELSE @]
-     /\ IF ev.e = "rd" /\ ev.x \in Counters /\ ev.c
-        THEN reg' = [reg EXCEPT ![g] = mem[ev.x]] /\ UNCHANGED <<mem, writes>>
-        ELSE IF ev.e = "wr" /\ ev.x \in Counters /\ ev.c
-        THEN /\ mem' = [mem EXCEPT ![ev.x] = reg[g] + 1]
-             /\ writes' = [writes EXCEPT ![ev.x] = @ + 1]
-             /\ UNCHANGED reg
-        ELSE UNCHANGED <<mem, reg, writes>>
-
-Next == \E g \in Gs : Step(g)
-
-Spec == Init /\ [][Next]_vars
-
-\* two goroutines both about to access one location, at least one writing, no lock in common
-Race(g, h) ==
-  /\ g # h /\ ~Done(g) /\ ~Done(h)
-  /\ IsAccess(Nxt(g)) /\ IsAccess(Nxt(h))
-  /\ Nxt(g).x = Nxt(h).x
-  /\ (IsWrite(Nxt(g)) \/ IsWrite(Nxt(h)))
-  /\ held[g] \cap held[h] = {}
-
-NoDataRace == \A g \in Gs, h \in Gs : ~Race(g, h)
-
-NoLostUpdate == (\A g \in Gs : Done(g)) => \A l \in Counters : mem[l] = writes[l]
-
-MutualExclusion == \A g \in Gs, h \in Gs : g # h => held[g] \cap held[h] = {}
-
-\* the recorded execution itself released every lock it took
-Balanced == (\A g \in Gs : Done(g)) => \A g \in Gs : held[g] = {}
+\* (the configuration substitutes the constant: CONSTANT Events <- Recorded)
+Recorded == ndJsonDeserialize("conc.ndjson")
 =============================================================================
